@@ -443,6 +443,10 @@ class Gen:
         self.zero_coef = zero_coef
         self.counter = 0
         self.channels = list(CHANNEL_NAMES[:self.nch])
+        # small pools so that the same factors / bases recur: registers (DepKeys) are shared between holds, also
+        # across nesting depths, and increments of 0 occur
+        self.coef_pool = {}
+        self.base_pool = [_const(rng, exact, allow_int=False) for _ in range(3)]
 
     def fresh(self, prefix):
         self.counter += 1
@@ -457,8 +461,14 @@ class Gen:
                 if rng.random() < self.zero_coef:
                     coef.append([n, ['0.0', 'pf']])        # affine with coefficient 0 (a parameter, so sympy keeps it)
                 else:
-                    coef.append([n, _const(rng, self.exact, nonzero=True, allow_int=rng.random() < 0.5)])
-        base = _const(rng, self.exact, allow_int=(rng.random() < self.p_int or bool(coef)))
+                    pool = self.coef_pool.setdefault(n, [_const(rng, self.exact, nonzero=True, allow_int=rng.random() < 0.5)
+                                                         for _ in range(2)])
+                    coef.append([n, copy.deepcopy(rng.choice(pool)) if rng.random() < 0.7 else
+                                 _const(rng, self.exact, nonzero=True, allow_int=rng.random() < 0.5)])
+        if rng.random() < 0.5:
+            base = copy.deepcopy(rng.choice(self.base_pool))
+        else:
+            base = _const(rng, self.exact, allow_int=(rng.random() < self.p_int or bool(coef)))
         return {'base': base, 'coef': coef}
 
     def hold(self, names, must=None):
@@ -948,10 +958,12 @@ WITNESSES = {
 def _report(ctx, o, family):
     if o.verdict == 'violation':
         case = o.case
-        small = shrink_violation(ctx, case, lambda c: _is_violation(ctx, c))
-        so = evaluate(ctx, [small], 'shrink', register=False)[0]
-        if so.verdict != 'violation':
-            small, so = case, o
+        small, so = case, o
+        if len(ctx.violations) < 3:                       # minimise the first few; the rest are reported as found
+            small = shrink_violation(ctx, case, lambda c: _is_violation(ctx, c))
+            so = evaluate(ctx, [small], 'shrink', register=False)[0]
+            if so.verdict != 'violation':
+                small, so = case, o
         ctx.violation('C17 [%s] %s' % (family, so.why),
                       {'kind': 'case', 'case': small, 'original_case': case if small is not case else None,
                        'ast': sx(so.ast_sx) if so.ast_sx is not None else None})
